@@ -1,19 +1,19 @@
 package mon
 
 import (
+	"bufio"
 	"bytes"
-	"context"
 	"encoding/json"
 	"errors"
 	"fmt"
+	"io"
 	"io/fs"
 	"os"
 	"os/exec"
-	"path/filepath"
 	"sort"
 	"strconv"
 	"strings"
-	"syscall"
+	"sync"
 	"testing/fstest"
 	"time"
 	"unicode/utf16"
@@ -207,10 +207,6 @@ func genC07(seed int64, tier string, emit func(run.Case)) {
 			if isoBudget[in.Trig] > isoMax {
 				in.Mode = "skip"
 			}
-		} else if c07Risk(text, files) {
-			// structurally risky but not a known trigger: always executed, in the child, so
-			// that an unknown non-termination gets a stable signature and costs bounded CPU
-			in.Trig, in.Mode = c07RiskClass, "isolate"
 		}
 		emit(run.MkCase(fmt.Sprintf("c%07d", id), src, in))
 	}
@@ -458,29 +454,6 @@ func c07Len(s string, u16 bool) int {
 //	  (`layers: {l: {z}}\n***.t: @x\nq: a.b.c`): the lazily re-applied glob also matches
 //	  the fields its own import created (q.t.k.t.k ...), multiplying with every later
 //	  declaration and board; a 60-byte program burns minutes of CPU.
-const c07RiskClass = "unclassified-recursive-glob"
-
-// c07Risk: the structural features behind every non-termination / blow-up found so far —
-// a recursive glob (`**`, `***`) in a program that also has a substitution, an import, a
-// spread, or boards. Such cases run in the CPU-limited child like the known classes, but
-// all of them are executed; one that does not finish is reported with the stable signature
-// C07.nontermination:unclassified-recursive-glob (a NEW violation, to be triaged into a
-// class of its own).
-func c07Risk(text string, files map[string]string) bool {
-	multi, other := false, false
-	for _, src := range append([]string{text}, c07SortedValues(files)...) {
-		if strings.Contains(src, "**") {
-			multi = true
-		}
-		low := strings.ToLower(src)
-		if strings.Contains(src, "${") || strings.Contains(src, "@") || strings.Contains(src, "...") ||
-			strings.Contains(low, "layers") || strings.Contains(low, "scenarios") || strings.Contains(low, "steps") || strings.Contains(low, "classes") {
-			other = true
-		}
-	}
-	return multi && other
-}
-
 func c07HangTrigger(text string, files map[string]string) string {
 	// glob-with-quoted-board-keyword: a glob statement that creates a key spelled like a
 	// QUOTED board keyword (`***.'steps': {a}`). The "must be declared at a board root
@@ -636,77 +609,233 @@ func c07SortedValues(m map[string]string) []string {
 func execC07(c run.Case) (res run.Result) {
 	var in c07In
 	c.Decode(&in)
-	switch in.Mode {
-	case "skip":
+	if in.Mode == "skip" {
 		res.Inc("vacuous_not_executed_known_nontermination_trigger_" + in.Trig)
 		return
-	case "isolate":
-		return c07Isolated(c, in)
 	}
-	return c07Direct(in)
+	// Inside the sandbox process, or when not running under the worker pool (replay,
+	// shrink): compile in this process.
+	if os.Getenv("C07_DIRECT") != "" || len(os.Args) < 2 || os.Args[1] != "worker" {
+		return c07Direct(in)
+	}
+	return c07Sandboxed(c, in)
 }
 
-// c07Isolated runs the case in a child process (`vd replay`) under `ulimit -t` so that
-// non-termination is observed as the child being killed by the kernel, at bounded cost.
-func c07Isolated(c run.Case, in c07In) (res run.Result) {
-	res.Inc("isolated_" + in.Trig)
-	direct := in
-	direct.Mode, direct.Trig = "", ""
-	dir, err := os.MkdirTemp("", "c07iso")
+// ---------------------------------------------------------------------------------
+// sandbox: every compile of a worker runs in ONE long-lived child process (`vd worker
+// C07` with C07_DIRECT=1, same wire protocol as the substrate's workers), started once
+// per worker. The parent watches the child's CPU time per case; a case over budget is
+// reported with a signature that is a function of the INPUT (known trigger class, or the
+// set of structural features of the text), never of a sampled stack frame, and the child
+// is killed and replaced. Panics are recovered inside the child and come back as ordinary
+// results; a child that dies of a fatal error (stack exhaustion) is classified likewise.
+
+type c07Wire struct {
+	Begin  string      `json:"begin,omitempty"`
+	Result *run.Result `json:"result,omitempty"`
+}
+
+type c07Box struct {
+	cmd   *exec.Cmd
+	in    io.WriteCloser
+	lines chan c07BoxLine
+	errMu sync.Mutex
+	err   bytes.Buffer
+}
+
+type c07BoxLine struct {
+	m   c07Wire
+	err error
+}
+
+type c07ErrW struct{ b *c07Box }
+
+func (w c07ErrW) Write(p []byte) (int, error) {
+	w.b.errMu.Lock()
+	defer w.b.errMu.Unlock()
+	if w.b.err.Len() < 1<<20 {
+		w.b.err.Write(p)
+	}
+	return len(p), nil
+}
+
+var c07TheBox *c07Box
+
+func c07BoxStart() (*c07Box, error) {
+	self, err := os.Executable()
 	if err != nil {
-		res.Inconclusive = "cannot create temp dir: " + err.Error()
-		return
+		return nil, err
 	}
-	defer os.RemoveAll(dir)
-	rf, _ := json.Marshal(run.ReplayFile{Property: "C07", Case: run.MkCase(c.ID, c.Kind, direct)})
-	p := filepath.Join(dir, "case.json")
-	if err := os.WriteFile(p, rf, 0o644); err != nil {
-		res.Inconclusive = "cannot write case: " + err.Error()
-		return
+	pr, pw, err := os.Pipe()
+	if err != nil {
+		return nil, err
 	}
-	self, _ := os.Executable()
-	cpuLimit := 6
-	if in.Trig == c07RiskClass {
-		cpuLimit = 20 // not a known trigger: same order as the in-process budget
+	b := &c07Box{lines: make(chan c07BoxLine, 4)}
+	b.cmd = exec.Command(self, "worker", "C07")
+	b.cmd.Env = append(os.Environ(), "C07_DIRECT=1", "GOMAXPROCS=2", "GOTRACEBACK=single")
+	b.cmd.ExtraFiles = []*os.File{pw}
+	b.cmd.Stdout, b.cmd.Stderr = c07ErrW{b}, c07ErrW{b}
+	if b.in, err = b.cmd.StdinPipe(); err != nil {
+		return nil, err
 	}
-	ctx, cancel := context.WithTimeout(context.Background(), 300*time.Second)
-	defer cancel()
-	cmd := exec.CommandContext(ctx, "/bin/sh", "-c", fmt.Sprintf("ulimit -t %d; exec \"$0\" replay C07 \"$1\"", cpuLimit), self, p)
-	var stdout, stderr bytes.Buffer
-	cmd.Stdout, cmd.Stderr = &stdout, &stderr
-	runErr := cmd.Run()
-	if ctx.Err() != nil {
-		res.Inconclusive = "isolated child hit the wall-clock limit (machine starved?)"
-		return
+	if err = b.cmd.Start(); err != nil {
+		return nil, err
 	}
-	var child run.Result
-	if json.NewDecoder(bytes.NewReader(stdout.Bytes())).Decode(&child) == nil && (runErr == nil || cmd.ProcessState.ExitCode() == 1) {
-		// terminated: adopt the child's judgement
-		child.Inc("isolated_terminated")
-		for k, v := range res.Feat {
-			child.Add(k, v)
+	pw.Close()
+	go func() {
+		rd := bufio.NewReaderSize(pr, 1<<20)
+		for {
+			ln, err := rd.ReadBytes('\n')
+			var m c07Wire
+			if err == nil {
+				err = json.Unmarshal(ln, &m)
+			}
+			b.lines <- c07BoxLine{m, err}
+			if err != nil {
+				pr.Close()
+				return
+			}
 		}
-		return child
+	}()
+	return b, nil
+}
+
+func (b *c07Box) kill() {
+	b.in.Close()
+	b.cmd.Process.Kill()
+	b.cmd.Wait()
+}
+
+func c07ProcCPU(pid int) float64 {
+	b, err := os.ReadFile(fmt.Sprintf("/proc/%d/stat", pid))
+	if err != nil {
+		return -1
 	}
-	se := stderr.String()
-	how := "killed at the CPU limit"
-	if strings.Contains(se, "stack exceeds") || strings.Contains(se, "stack overflow") {
-		how = "died of goroutine stack exhaustion (unbounded recursion)"
-	} else if strings.Contains(se, "out of memory") || strings.Contains(se, "cannot allocate") {
-		how = "ran out of memory"
-	} else if ws, ok := cmd.ProcessState.Sys().(syscall.WaitStatus); !ok || !ws.Signaled() {
-		// not killed by a signal and no stack exhaustion: some other death, report as crash
-		res.Viol("C07.crash", "C07.crash:isolated-child:"+in.Trig, fmt.Sprintf("isolated compile died: %v\n%s", runErr, trunc(se, 2500)))
+	s := string(b)
+	f := strings.Fields(s[strings.LastIndexByte(s, ')')+1:])
+	if len(f) < 14 {
+		return -1
+	}
+	ut, _ := strconv.ParseFloat(f[11], 64)
+	st, _ := strconv.ParseFloat(f[12], 64)
+	return (ut + st) / 100
+}
+
+// c07Features lists the structural features of the input (stable, input-derived part of
+// the signature of an unclassified hang).
+func c07Features(in c07In) string {
+	all := in.Text
+	for _, f := range c07SortedValues(in.Files) {
+		all += "\n" + f
+	}
+	low := strings.ToLower(all)
+	var fs []string
+	add := func(ok bool, name string) {
+		if ok {
+			fs = append(fs, name)
+		}
+	}
+	add(strings.Contains(all, "**"), "recursive-glob")
+	add(strings.Contains(all, "*") && !strings.Contains(all, "**"), "glob")
+	add(strings.Contains(all, "...${"), "spread-substitution")
+	add(strings.Contains(all, "${") && !strings.Contains(all, "...${"), "substitution")
+	add(strings.Contains(all, "@"), "import")
+	add(strings.Contains(low, "layers") || strings.Contains(low, "scenarios") || strings.Contains(low, "steps"), "boards")
+	add(strings.Contains(low, "classes"), "classes")
+	add(strings.Contains(all, "&"), "filter")
+	add(strings.Contains(low, "null"), "null")
+	if len(fs) == 0 {
+		return "plain"
+	}
+	return strings.Join(fs, "+")
+}
+
+func c07Sandboxed(c run.Case, in c07In) (res run.Result) {
+	budget := 30.0
+	if in.Trig != "" {
+		budget = 6 // known trigger class: a handful of witnesses per run, small budget
+		res.Inc("isolated_" + in.Trig)
+	}
+	direct := in
+	direct.Mode = ""
+	var err error
+	if c07TheBox == nil {
+		if c07TheBox, err = c07BoxStart(); err != nil {
+			res.Inconclusive = "cannot start sandbox process: " + err.Error()
+			return
+		}
+	}
+	b := c07TheBox
+	line, _ := json.Marshal(run.MkCase(c.ID, c.Kind, direct))
+	if _, err := b.in.Write(append(line, '\n')); err != nil {
+		b.kill()
+		c07TheBox = nil
+		res.Inconclusive = "sandbox process not writable: " + err.Error()
 		return
 	}
-	res.Inc("nontermination_observed")
-	res.Nontrivial = true
-	clause := "C07.nontermination"
-	if in.Trig == "glob-with-quoted-board-keyword" || in.Trig == "multi-glob-with-import-value" {
-		clause = "C07.blowup" // terminates in principle, cost exponential in the input size
+	pid := b.cmd.Process.Pid
+	cpu0 := c07ProcCPU(pid)
+	start := time.Now()
+	tick := time.NewTicker(100 * time.Millisecond)
+	defer tick.Stop()
+	how := ""
+	for how == "" {
+		select {
+		case ln := <-b.lines:
+			if ln.err != nil {
+				how = "died"
+				break
+			}
+			if ln.m.Result != nil {
+				r := *ln.m.Result
+				if in.Trig != "" {
+					r.Inc("isolated_terminated")
+					r.Inc("isolated_" + in.Trig)
+				}
+				return r
+			}
+		case <-tick.C:
+			if cpu := c07ProcCPU(pid) - cpu0; cpu > budget {
+				how = fmt.Sprintf("burned %.1f CPU-s (budget %.0f)", cpu, budget)
+			} else if time.Since(start) > 10*time.Minute {
+				b.kill()
+				c07TheBox = nil
+				res.Inconclusive = "sandboxed compile hit the wall-clock limit (machine starved?)"
+				return
+			}
+		}
 	}
-	res.Viol(clause, clause+":"+in.Trig, fmt.Sprintf("compile of a %d-byte program did not finish within %d CPU-seconds: child %s\ninput:\n%s\n%s", len(in.Text), cpuLimit, how, trunc(in.Text, 600), trunc(se, 1200)))
-	res.Sample = map[string]any{"src": in.Src, "text": trunc(in.Text, 240), "isolated": in.Trig}
+	b.kill()
+	c07TheBox = nil
+	b.errMu.Lock()
+	se := b.err.String()
+	b.errMu.Unlock()
+	stack := strings.Contains(se, "stack exceeds") || strings.Contains(se, "stack overflow")
+	res.Nontrivial = true
+	res.Sample = map[string]any{"src": in.Src, "text": trunc(in.Text, 240), "sandbox": how}
+	detail := fmt.Sprintf("compile of a %d-byte program: sandbox process %s\ninput:\n%s\n%s", len(in.Text), how, trunc(in.Text, 800), trunc(se, 1500))
+	switch {
+	case in.Trig != "" && (how != "died" || stack):
+		res.Inc("nontermination_observed")
+		clause := "C07.nontermination"
+		if in.Trig == "glob-with-quoted-board-keyword" || in.Trig == "multi-glob-with-import-value" {
+			clause = "C07.blowup" // terminates in principle, cost exponential in the input size
+		}
+		res.Viol(clause, clause+":"+in.Trig, detail)
+	case how != "died":
+		res.Viol("C07.hang", "C07.hang:cpu-budget@d2compiler.Compile:"+c07Features(in), detail)
+	case stack:
+		res.Viol("C07.crash", "C07.crash:stack-exhaustion@d2compiler.Compile:"+c07Features(in), detail)
+	default:
+		cls := "died"
+		for _, l := range strings.Split(se, "\n") {
+			if strings.HasPrefix(l, "fatal error: ") {
+				cls = "fatal-" + strings.ReplaceAll(strings.TrimPrefix(l, "fatal error: "), " ", "-")
+				break
+			}
+		}
+		res.Viol("C07.crash", "C07.crash:"+cls+"@d2compiler.Compile:"+c07Features(in), detail)
+	}
 	return
 }
 
